@@ -349,6 +349,9 @@ def rule_setunset_check(ctx, rule='R14.u'):
             vals = falsy(w)
             for k, v in zip(keys, vals):
                 w.call('__setitem__', w.key(*k), v)
+            if pair:
+                # a pair named in the other orientation is the same (symmetric) entry: assigned, not unset
+                w.call('__setitem__', w.key('D', 'A'), w.payload('P'))
             before = {k: ident(v) for k, v in w.cells().items()}
             W_ = w.payload('W')
             w.call('setUnset', W_)
@@ -411,6 +414,14 @@ def rule_setunset_check(ctx, rule='R14.u'):
                 r = outcome(w)
                 if r is not None:
                     bad.append('check() raises %s on a fully specified table of %s' % (r, what))
+            if pair:
+                # the same complete table with every pair named in the other orientation (b,a)
+                w = World(ctx.prog, qual)
+                for i, k in enumerate(allkeys):
+                    w.call('__setitem__', w.key(*reversed(k)), w.payload('v%d' % (i % 4)))
+                r = outcome(w)
+                if r is not None:
+                    bad.append('check() raises %s on a fully specified table whose pairs were assigned as (b,a) rather than (a,b)' % r)
             # exactly one entry missing, every position
             for miss in allkeys:
                 w = World(ctx.prog, qual)
